@@ -30,9 +30,9 @@ SHARDS = {'quick': 8, 'thorough': 16}
 ENV = {'XLA_FLAGS': '--xla_force_host_platform_device_count=8'}
 SHARD_TIMEOUT = {'quick': 900, 'thorough': 3400}
 MIN_HITS = {
-    'quick': {'deg:zero-step-client-with-weight': 4, 'fedprox0-on-pmap': 8, 'mon:fedprox0': 60, 'mon:hyp1': 60, 'mon:apfl': 60, 'mon:mimelite': 20, 'mon:proxoracle': 40,
+    'quick': {'deg:zero-step-client-with-weight': 4, 'cohort-repeats-a-client': 4, 'hit:extreme-learning-rate': 8, 'fedprox0-on-pmap': 8, 'mon:fedprox0': 60, 'mon:hyp1': 60, 'mon:apfl': 60, 'mon:mimelite': 20, 'mon:proxoracle': 40,
               'mon:proxaug': 40, 'mon:mime': 40, 'leg:apfl-rounds': 60, 'hit:reg-family-round': 120, 'regularizer-observable': 8, 'mime-with-regularizer': 10},
-    'thorough': {'deg:zero-step-client-with-weight': 60, 'fedprox0-on-pmap': 120, 'mon:fedprox0': 1200, 'mon:hyp1': 1200, 'mon:apfl': 1200, 'mon:mimelite': 400, 'mon:proxoracle': 800,
+    'thorough': {'deg:zero-step-client-with-weight': 60, 'cohort-repeats-a-client': 60, 'hit:extreme-learning-rate': 64, 'fedprox0-on-pmap': 120, 'mon:fedprox0': 1200, 'mon:hyp1': 1200, 'mon:apfl': 1200, 'mon:mimelite': 400, 'mon:proxoracle': 800,
                  'mon:proxaug': 800, 'mon:mime': 700, 'leg:apfl-rounds': 1200, 'hit:reg-family-round': 1500, 'regularizer-observable': 100, 'mime-with-regularizer': 120},
 }
 EXHAUSTIVE = {'quick': False, 'thorough': False}
@@ -117,6 +117,17 @@ def gen_history(rng, quick, family):
     cohorts.append(c)
   if extra.get('zero_step_client'):
     cohorts = [sorted(set(c) | {0, 1}) for c in cohorts]
+  if family in ('deg', 'prox', 'reg') and n_clients >= 2 and rng.rand() < 0.12:
+    # forced class: a cohort that lists a client more than once (apply() takes any sequence of clients; each listed
+    # occurrence trains and carries its weight)
+    r_ = int(rng.randint(rounds))
+    c = list(cohorts[r_])
+    j = int(np.argmax([sizes[i] for i in c]))
+    c.insert(int(rng.randint(len(c) + 1)), c[j])
+    if rng.rand() < 0.3:
+      c.append(c[j])
+    cohorts[r_] = c
+    extra['repeated_client_in_cohort'] = True
   return dict(family=family, dim=dim, kind=kind, sizes=sizes, cspec=cspec, sspec=sspec, hp=hp, rounds=rounds,
               cohorts=cohorts, init_seed=int(rng.randint(0, 2**31 - 1)), **extra)
 
@@ -260,6 +271,8 @@ def run_deg(ctx, fedjax, jax, jnp, h):
   for key, leg in list(legs.items()) + [('fedavg', ref)]:
     leg.deferred(key, wit)
   klass = ['family=deg', f"copt={h['cspec'][0]}", f"sopt={h['sspec'][0]}"] + (['discarded'] if discarded else [])
+  if h.get('repeated_client_in_cohort'):
+    klass.append('cohort-repeats-a-client')
   if h.get('zero_step_client'):
     klass.append('deg:zero-step-client-with-weight')
   key = ('deg', tuple(h['sizes']), tuple(sorted(h['hp'].items(), key=str)), h['cspec'], h['sspec'],
@@ -323,6 +336,8 @@ def run_prox(ctx, fedjax, jax, jnp, h):
         compare(ctx, 'proxaug/params-differ-from-fedavg-on-augmented-loss',
                 f'round {rnd}: fed_prox(mu={mu}) vs fed_avg on loss + 0.5*mu*|w-w_server|^2', got, exp, tol, w)
   klass = ['family=prox', f'mu={mu}', f"copt={h['cspec'][0]}", f"sopt={h['sspec'][0]}"]
+  if h.get('repeated_client_in_cohort'):
+    klass.append('cohort-repeats-a-client')
   klass += ['discarded'] if discarded else []
   klass += ['prox-term-observable'] if felt else []
   key = ('prox', mu, tuple(h['sizes']), tuple(sorted(h['hp'].items(), key=str)), h['cspec'], h['sspec'],
@@ -439,12 +454,49 @@ def run_reg(ctx, fedjax, jax, jnp, h):
   for key, tag, rg, leg in legs:
     leg.deferred(key, {**wit, 'instance': tag})
   klass = ['family=reg', f"copt={h['cspec'][0]}", f"sopt={h['sspec'][0]}"] + (['discarded'] if discarded else [])
+  if h.get('repeated_client_in_cohort'):
+    klass.append('cohort-repeats-a-client')
   klass += ['regularizer-observable'] if felt else []
   key = ('reg', lam, tuple(h['sizes']), tuple(sorted(h['hp'].items(), key=str)), h['cspec'], h['sspec'], tuple(map(tuple, h['cohorts'])))
   ctx.case_done(key if (nontrivial and felt and not discarded) else None, sample=wit, klass=klass)
 
 
-RUNNERS = {'deg': run_deg, 'prox': run_prox, 'mime': run_mime, 'reg': run_reg}
+XLRS = (1e-30, 1e-12, 1e9, 1e19, 1e20, 3e24)
+
+
+def run_xlr(ctx, fedjax, jax, jnp, h):
+  """"For all learning rates": one round, one local SGD step per client, client learning rate from XLRS (squared update norms
+  under- or overflow float32 while the updates themselves stay finite); FedProx(0), HypCluster(1) and MimeLite(SGD, 1.0) against
+  FedAvg, relative to the size of FedAvg's result."""
+  raw, ids, init = make_world(h)
+  dsets = algos.make_datasets(raw)
+  wit = witness(h)
+  common = dict(cspec=h['cspec'], sspec=h['sspec'], hp=h['hp'])
+  ref = Leg(ctx, 'fed_avg', algos.build('fed_avg', **common), init, wit)
+  legs = {
+      'fedprox0': Leg(ctx, 'fed_prox', algos.build('fed_prox', proximal_weight=0.0, **common), init, wit),
+      'hyp1': Leg(ctx, 'hyp_cluster', algos.build('hyp_cluster', num_clusters=1, **common), init, wit),
+      'mimelite': Leg(ctx, 'mime_lite', algos.build('mime_lite', cspec=h['cspec'], hp=h['hp'], server_learning_rate=1.0,
+                                                    client_delta_clip_norm=None, grads_batch_size=h['grads_batch_size']), init, wit),
+  }
+  cohort_ids, clients, cohort = round_inputs(fedjax, jax, h, raw, ids, dsets, 0)
+  w = {**wit, 'round': 0}
+  expected = ref.step(clients, w)
+  klass = ['family=xlr', f"lr={h['cspec'][1]:g}"]
+  if expected is None or not toy.all_finite(expected):
+    ctx.count('xlr:fedavg-not-finite')
+    return ctx.case_done(None, sample=wit, klass=klass + ['discarded'])
+  moved = toy.max_abs_diff(expected, init)
+  tol = 2e-5 * max(toy.max_abs(expected), moved)
+  ctx.count('hit:extreme-learning-rate')
+  for key, leg in legs.items():
+    got = leg.step(clients, w)
+    if got is not None:
+      compare(ctx, f'{key}/params-differ-from-fedavg', f'round 0 (client lr {h["cspec"][1]:g}): {leg.name} vs fed_avg', got, expected, tol, w)
+  ctx.case_done(('xlr', h['cspec'][1], tuple(h['sizes']), tuple(h['cohorts'][0])) if len(cohort) >= 2 else None, sample=wit, klass=klass)
+
+
+RUNNERS = {'deg': run_deg, 'xlr': run_xlr, 'prox': run_prox, 'mime': run_mime, 'reg': run_reg}
 
 
 def run(ctx):
@@ -471,3 +523,15 @@ def run(ctx):
         while len(h['cohorts']) < h['rounds']:
           h['cohorts'].append(h['cohorts'][-1])
       RUNNERS[family](ctx, fedjax, jax, jnp, h)
+  for cid, rng in ctx.cases('xlr', 12 if ctx.quick else 96):
+    h = gen_history(rng, ctx.quick, 'deg')
+    h.pop('zero_step_client', None)
+    h.pop('repeated_client_in_cohort', None)
+    h['family'] = 'xlr'
+    h['sizes'] = [max(1, s_) for s_ in h['sizes']]
+    h['cspec'], h['sspec'] = ('sgd', float(XLRS[int(cid.split('/')[1]) % len(XLRS)])), ('sgd', 1.0)
+    h['hp'] = dict(h['hp'], num_steps=1, num_epochs=1, drop_remainder=False)
+    h['rounds'], h['cohorts'] = 1, [sorted(set(h['cohorts'][0]))]
+    run_xlr(ctx, fedjax, jax, jnp, h)
+TECHNIQUE += '; cohorts listing a client more than once; client learning rates 1e-30 ... 3e24'
+RULE += " Wave-8 addition: 12% of deg/prox/reg histories list a client two or three times in one cohort; family xlr runs one round of one SGD step with client learning rate in {1e-30, 1e-12, 1e9, 1e19, 1e20, 3e24} (FedProx(0), HypCluster(1), MimeLite vs FedAvg, relative to the size of FedAvg's result)."
